@@ -22,7 +22,7 @@ package dastard
 //@ pred PowT(t int) := t == 2 || t == 4 || t == 8 || t == 16 || t == 32 || t == 64 || t == 128 || t == 256 || t == 512 || t == 1024 || t == 2048 || t == 4096 || t == 8192 || t == 16384
 
 // Adding or removing one quantum (with 16-bit wrap-around) keeps a multiple of the quantum a multiple.
-//@ lemma quantum_step C12: forall a int, t int :: PowT(t) && 0 <= a && a < 65536 && a % t == 0 ==> ((a + t) % 65536) % t == 0 && ((a + 65536 - t) % 65536) % t == 0
+//@ lemma quantum_step C12: forall a int, t int :: PowT(t) && 0 <= a && a < 65536 && a % t == 0 ==> uint16(a + t) % t == 0 && uint16(a - t) % t == 0
 
 // InvU: representation invariant of an enabled unwrapper.
 //@ pred InvU(u *PhaseUnwrapper) := u.enable && u.lowBitsToDrop > 0 ==> PowT(u.twoPi) && u.upperStepLim - u.lowerStepLim == u.twoPi
@@ -47,7 +47,6 @@ package dastard
 //@   ensures carry: u.lowBitsToDrop > 0 && u.enable && len(*data) > 0 ==> u.lastVal == VIn(u, oldat(*data, (*data).off + len(*data) - 1)) && u.offset == u.goff[len(*data) - 1] && u.resetCount == u.gcnt[len(*data) - 1]
 //@   ensures idle: len(*data) == 0 ==> unchanged(u.lastVal, u.offset) && (u.enable ==> unchanged(u.resetCount))
 //@   modifies u.lastVal, u.offset, u.resetCount, u.gcnt, u.goff, (*data)[*]
-//@   apply forall a int :: {(a + u.twoPi) % 65536} quantum_step(a, u.twoPi)
 //@   ghost loop 3: u.gcnt[rangeindex] := u.resetCount
 //@   ghost loop 3: u.goff[rangeindex] := u.offset
 //@   loop 1
@@ -68,6 +67,7 @@ package dastard
 //@     invariant steps: forall k int :: {u.goff[k]} 0 <= k && k <= rangeindex ==>
 //@        StepOK(u, u.goff[k], ite(k == 0, old(u.offset), u.goff[k - 1]), VIn(u, oldat(*data, (*data).off + k)), ite(k == 0, old(u.lastVal), VIn(u, oldat(*data, (*data).off + k - 1))))
 //@     invariant counter: forall k int :: {u.gcnt[k]} 0 <= k && k <= rangeindex ==> CountOK(u, k, old(u.resetCount))
+//@     apply quantum_step(u.offset, u.twoPi)
 
 // CountOK: the reset counter after sample k is 0 when the sample's offset is the home offset, otherwise
 // one more than after the previous sample, and it never exceeds resetAfter -- so after at most resetAfter
